@@ -98,18 +98,18 @@ PROPS = {
                 assumptions=[A_DISP, A_LEAF]),
     'C03': dict(level='other', kinds=FUNCTIONAL, kani=K_TW_F + K_RK_F + K_GLUE,
                 builds=[dict(build='memmem', modules=['memmem', 'cow', 'x_memmem'], select=SEL_MM_F),
-                        dict(build='main', modules=MAIN_MODS_SUB + ['memchr', 'arch::generic::memchr'],
-                             select=SEL_RK_F + SEL_PP_FIND + SEL_TW_F + [(TOP, r'memchr')])],
+                        dict(build='main', modules=MAIN_MODS_SUB + MAIN_MODS_MEMCHR,
+                             select=SEL_RK_F + SEL_PP_FIND + SEL_PP_PRE + SEL_TW_F + SEL_C01)],
                 explanation='hybrid: Verus proves the front end (memmem::find, Finder::find, builders) against assumed searcher contracts, and '
                             'proves the blocks (Rabin-Karp search = leftmost, packed-pair find = leftmost, Two-Way soundness/no-panic); Two-Way '
                             'completeness, constructors with iterator adapters and the union/fn-pointer glue are BOUNDED Kani harnesses',
                 assumptions=[A_TW, A_GLUE, A_CTOR, A_LEAF]),
     'C04': dict(level='other', kinds=FUNCTIONAL, kani=K_TW_R + K_RK_R + K_GLUE_R,
                 builds=[dict(build='memmem', modules=['memmem', 'cow', 'x_memmem'], select=SEL_MM_R),
-                        dict(build='main', modules=MAIN_MODS_SUB, select=SEL_RK_R + SEL_TW_R)],
+                        dict(build='main', modules=MAIN_MODS_SUB + MAIN_MODS_MEMCHR, select=SEL_RK_R + SEL_TW_R + SEL_C02)],
                 explanation='hybrid as C03 for the reverse direction; SearcherRev (a plain enum) is proved in Verus against the block contracts',
                 assumptions=[A_TW, A_CTOR]),
-    'C05': dict(level='proof', kinds=('precondition',), mem_only=True, kani=K_LEAF,
+    'C05': dict(level='proof', kinds=('precondition', 'postcondition', 'invariant'), mem_only=True, kani=K_LEAF,
                 builds=[dict(build='main', modules=MAIN_MODS_MEMCHR + MAIN_MODS_SUB, select=SEL_C05),
                         dict(build='safe', modules=None, select=SEL_C05)],
                 explanation='every read/read_unaligned/load_*/add/sub/offset/offset_from in the extracted units carries a readable-range / '
@@ -117,7 +117,7 @@ PROPS = {
                             'finders are additionally verified in the S variant (release semantics, type invariant only, any needle)',
                 assumptions=[A_DISP, A_LEAF, 'Two-Way and Shift-Or use safe indexing only (no pointer obligations); Shift-Or is not extracted']),
     'C06': dict(level='proof', kinds=FUNCTIONAL, kani=[],
-                builds=[dict(build='main', modules=MAIN_MODS_MEMCHR + ['hist'], select=SEL_C06)],
+                builds=[dict(build='main', modules=MAIN_MODS_MEMCHR + ['hist'], select=SEL_C06 + SEL_C01 + SEL_C02 + SEL_C07)],
                 explanation='per-operation window contracts on the real next/next_back/size_hint/count + a spec-level history machine '
                             '(prelude/hist.vrs) whose inductive lemmas give freshness, order, completeness and fusedness for every call order',
                 assumptions=['std Iterator/DoubleEndedIterator trait headers dropped (X7): methods verified as inherent fns', A_DISP]),
@@ -127,7 +127,9 @@ PROPS = {
     'C08': dict(level='other', kinds=FUNCTIONAL, kani=[],
                 builds=[dict(build='memmem', modules=['memmem', 'x_memmem'],
                              select=[(MM, r'(FindIter|FindRevIter)::.*'), (MM, r'(find_iter|rfind_iter)'), (MM, r'(Finder|FinderRev)::(find_iter|rfind_iter)'),
-                                     (r'^x_memmem$', r'.*')])],
+                                     (r'^x_memmem$', r'.*')]),
+                        dict(build='main', modules=MAIN_MODS_SUB + MAIN_MODS_MEMCHR,
+                             select=SEL_RK_F + SEL_RK_R + SEL_PP_FIND + SEL_PP_PRE + SEL_TW_F + SEL_TW_R + SEL_C01 + SEL_C02)],
                 explanation='Verus proves FindIter/FindRevIter next and size_hint equal the greedy sequence, for every PrefilterState, against the '
                             'assumed Searcher / SearcherRev contracts (C03/C04 decide those)',
                 assumptions=[A_GLUE, A_TW]),
@@ -139,13 +141,14 @@ PROPS = {
                                              'generic algorithm they instantiate is proved for every V: Vector satisfying the trait contract']),
     'C10': dict(level='other', kinds=FUNCTIONAL, kani=K_GLUE,
                 builds=[dict(build='memmem', modules=['memmem', 'x_memmem'], select=[(MM, r'(Finder::find|FindIter::next|FinderBuilder::.*)'), (PRE, r'(Pre|PrefilterState)::.*')]),
-                        dict(build='main', modules=MAIN_MODS_SUB, select=[(TW, r'Finder::(find_with_prefilter|find_small_imp|find_large_imp)'), (PRE, r'.*')])],
+                        dict(build='main', modules=MAIN_MODS_SUB + MAIN_MODS_MEMCHR,
+                             select=SEL_TW_F + SEL_PP_PRE + SEL_PP_FIND + SEL_RK_F + SEL_C01 + [(PRE, r'.*')])],
                 explanation='the assumed Searcher contract mentions neither PrefilterConfig, ranker nor PrefilterState (holds for all); Two-Way '
                             'with a prefilter is proved sound/no-panic for every prefilter answer; bounded Kani runs the real glue with a fully '
                             'symbolic ranker table and symbolic config',
                 assumptions=[A_GLUE, A_TW]),
     'C11': dict(level='proof', kinds=FUNCTIONAL, kani=K_LEAF,
-                builds=[dict(build='main', modules=MAIN_MODS_SUB + ['arch::all::memchr', 'memchr', 'arch::generic::memchr'], select=SEL_PP_PRE)],
+                builds=[dict(build='main', modules=MAIN_MODS_SUB + MAIN_MODS_MEMCHR, select=SEL_PP_PRE + SEL_C01)],
                 assumptions=[A_LEAF, 'the fn-pointer hop Prefilter::find -> prefilter_kind_* is glue (bounded Kani only)']),
     'C12': dict(level='other', kinds=FUNCTIONAL, kani=K_TW_F + K_TW_R + K_RK_F + K_RK_R + K_SO,
                 builds=[dict(build='main', modules=MAIN_MODS_SUB, select=SEL_RK_F + SEL_RK_R + SEL_PP_FIND + SEL_TW_F + SEL_TW_R)],
@@ -159,7 +162,9 @@ PROPS = {
                             'shift and unwrap in the extracted units is an obligation discharged by Verus',
                 assumptions=[A_CTOR, 'Shift-Or and the union/fn-pointer glue are covered by bounded Kani only']),
     'C16': dict(level='other', kinds=FUNCTIONAL, kani=[],
-                builds=[dict(build='memmem', modules=['memmem', 'cow', 'x_memmem'], select=[(MM, r'(Finder|FinderRev|FindIter|FindRevIter)::.*'), (COW, r'.*')])],
+                builds=[dict(build='memmem', modules=['memmem', 'cow', 'x_memmem'], select=[(MM, r'(Finder|FinderRev|FindIter|FindRevIter)::.*'), (COW, r'.*')]),
+                        dict(build='main', modules=MAIN_MODS_SUB + MAIN_MODS_MEMCHR,
+                             select=SEL_RK_F + SEL_RK_R + SEL_PP_FIND + SEL_PP_PRE + SEL_TW_F + SEL_TW_R + SEL_C01 + SEL_C02)],
                 explanation='the result is determined by (needle, haystack) because Finder::find creates a fresh PrefilterState and the searcher '
                             'contract is universally quantified over it; as_ref/into_owned/needle contracts proved; derived Clone on the '
                             'front-end types carries no Verus spec (not covered)',
